@@ -185,6 +185,32 @@ theorem linspace_den (a b range : Int) (num : Nat) (ep : Bool) (cs : List Nat) (
   rw [linspace_aux a b range num ep cs 0, hsum]
   rfl
 
+/-- **linspace_any_arith_den**: the same for *any* arithmetic of the result dtype (binary64 in particular, including the
+    branch for a step that underflowed to zero): block lengths are the declared chunks and the blocks concatenate to the
+    one-block array, so float `linspace` is chunk-invariant bit for bit. -/
+theorem linspace_any_arith_den {α} (A : Arith α) (fdiv : α → α → α) (start stop step range divv : α) (stepZero : Bool)
+    (num : Nat) (ep : Bool) (cs : List Nat) :
+    (linspaceValuesG A fdiv start stop step range divv stepZero num ep cs).flatten
+      = linspaceBlockG A fdiv start stop step range divv stepZero num ep 0 (sum cs)
+    ∧ (linspaceValuesG A fdiv start stop step range divv stepZero num ep cs).map List.length = cs := by
+  refine ⟨?_, blocks_by_index_lens (linspaceBlockG A fdiv start stop step range divv stepZero num ep)
+    (by intro o n; simp [linspaceBlockG]) cs 0⟩
+  unfold linspaceValuesG linspaceBlockG
+  rw [blocks_by_index (linspaceElemG A fdiv start stop step range divv stepZero num ep) cs 0]
+
+/-- … instantiated with binary64: the float `linspace` of the model is chunk-invariant, and the divisions of its formulas
+    never raise (`div ≠ 0`) -/
+theorem linspace_f_den (start stop : F64) (num : Nat) (ep : Bool) (cs : List Nat) :
+    (linspaceValuesF start stop num ep cs).map List.length = cs
+    ∧ (∀ cs', sum cs' = sum cs → (linspaceValuesF start stop num ep cs').flatten = (linspaceValuesF start stop num ep cs).flatten)
+    ∧ SoftFloat.div (sub stop start) (ofInt (linspaceDiv num ep))
+        = some (linspacePlanF start stop num ep).step := by
+  refine ⟨(linspace_any_arith_den _ _ _ _ _ _ _ _ _ _ cs).2, ?_, ?_⟩
+  · intro cs' h
+    unfold linspaceValuesF
+    rw [(linspace_any_arith_den _ _ _ _ _ _ _ _ _ _ cs').1, (linspace_any_arith_den _ _ _ _ _ _ _ _ _ _ cs).1, h]
+  · exact fdivTotal_ofInt _ _ (linspaceDiv_ne_zero num ep)
+
 /-- the pinned endpoint is the value the formula gives in exact arithmetic: `start + (num-1)*step = stop` -/
 theorem linspace_endpoint (start stop : Int) (num : Nat) :
     start * ((num - 1 : Nat) : Int) + ((num - 1 : Nat) : Int) * (stop - start) = stop * ((num - 1 : Nat) : Int) := by
